@@ -111,30 +111,51 @@ def rule_R2(ctx, f):
     exit_t = [t for v, t in si[1] if v == 0][0]
     ctx.ob(rid, "gather|sort-after-merge", b.dominates(exit_t, s.bb) and outer.bb not in b.reach(exit_t),
            "the sort loop must start only after the merge loop has finished", site=s.span)
-    pushes_after = [c for c in b.calls() if c.matches(["Vec::push", "Vec::extend", "Vec::append", "Vec::insert", "VacantEntry::insert", "BTreeMap::insert"]) and c.bb in b.reach(exit_t)]
+    pushes_after = [c for c in b.calls() if c.matches(["Vec::push", "Vec::extend", "Vec::append", "Vec::insert", "VacantEntry::insert", "BTreeMap::insert", "HashMap::insert"]) and c.bb in b.reach(exit_t)
+                    and not (c.matches(["Vec::push", "Vec::extend", "Vec::append", "Vec::insert"]) and peel(c.args[0]) != bymap and not is_call(peel(c.args[0]), ["mut_metric"]))]
     ctx.ob(rid, "gather|no-merge-after-sort", not pushes_after, "no sample or family may be added after the sort loop", site=s.span)
     # every path from the merge-loop exit to the return passes through the sort loop header (the `next` of the sort loop)
     snext = [c for c in b.calls_to("Iterator::next") if c.bb in b.reach(exit_t)]
     ctx.ob(rid, "gather|sort-on-every-path", bool(snext) and b.all_paths_pass(exit_t, [snext[0].bb]), "every path from the merge to the return must run the sort loop", site=s.span)
     # by-name map is a BTreeMap keyed by the family name, emitted with into_values
-    ents = b.calls_to(["BTreeMap::entry", "BTreeMap::insert"])
-    ok = len(ents) == 1 and peel(ents[0].args[0]) == bymap and is_call(bymap, "BTreeMap::new")
+    ents = [c for c in b.calls_to(["BTreeMap::entry", "BTreeMap::insert", "HashMap::entry", "HashMap::insert"]) if peel(c.args[0]) == bymap]
+    hashed = is_call(bymap, ["HashMap::new", "HashMap::with_capacity", "HashMap::default"]) or (is_call(bymap, "Default::default") and "HashMap" in bymap[1])
+    ok = len(ents) == 1 and (is_call(bymap, "BTreeMap::new") or hashed)
     if ok:
         k = peel(ents[0].args[1])
         ei = elem_of(peel(k[2][0]), filter_ok=lambda t: _nonempty_family_filter(b, t)) if is_call(k, ["MetricFamily::name", "get_name"]) else None
         ok = bool(ei) and is_call(ei[0], "Collector::collect")
-    ctx.ob(rid, "gather|by-name-btreemap", ok, "families must be merged in a BTreeMap keyed by the family's own name", site=ents[0].span if ents else b.raw["span"]["at"])
-    outv = b.calls_to(["BTreeMap::into_values", "BTreeMap::into_iter", "BTreeMap::values"])
-    ok = len(outv) == 1 and peel(outv[0].args[0]) == bymap and outv[0].bb in b.reach(exit_t)
+    ctx.ob(rid, "gather|by-name-btreemap", ok, "families must be merged in a map keyed by the family's own name (a BTreeMap, or a HashMap whose entries are sorted by name before they are emitted)",
+           site=ents[0].span if ents else b.raw["span"]["at"])
     ret = b.term_local(0)
     chain_ok = False
-    if ok and is_call(ret, "Iterator::collect"):
-        t = ret[2][0]
-        names = []
-        while t[0] == "call" and t != outv[0].result_term():
-            names.append(strip_generics(t[1]).split("::")[-1])
-            t = t[2][0]
-        chain_ok = t == outv[0].result_term() and all(n in ("map", "into_iter") for n in names)
+    if not hashed:
+        outv = b.calls_to(["BTreeMap::into_values", "BTreeMap::into_iter", "BTreeMap::values"])
+        ok = len(outv) == 1 and peel(outv[0].args[0]) == bymap and outv[0].bb in b.reach(exit_t)
+        if ok and is_call(ret, "Iterator::collect"):
+            t = ret[2][0]
+            names = []
+            while t[0] == "call" and t != outv[0].result_term():
+                names.append(strip_generics(t[1]).split("::")[-1])
+                t = t[2][0]
+            chain_ok = t == outv[0].result_term() and all(n in ("map", "into_iter") for n in names)
+    else:
+        # HashMap: all (name, family) entries are moved into a Vec, that Vec is sorted by the name component (unique keys: a total order), and emitted in that order
+        ok = False
+        named = [c for c in b.calls_to("Iterator::collect") if peel(c.args[0], transparent=["IntoIterator::into_iter", "HashMap::into_iter", "HashMap::drain"]) == bymap and c.bb in b.reach(exit_t)]
+        if len(named) == 1:
+            V = named[0].result_term()
+            srt = [c for c in b.calls_to(["slice::sort_by", "slice::sort_unstable_by", "slice::sort_by_key", "slice::sort_unstable_by_key", "slice::sort_by_cached_key"])
+                   if peel(c.args[0], transparent=["DerefMut::deref_mut"]) == V]
+            if len(srt) == 1 and count_range(b, [srt[0].bb]) == (1, 1) and _sorts_by_first(f, srt[0]):
+                ok = True
+                if is_call(ret, "Iterator::collect"):
+                    t = ret[2][0]
+                    names = []
+                    while t[0] == "call" and peel(t, transparent=[]) != V and t[2]:
+                        names.append(strip_generics(t[1]).split("::")[-1])
+                        t = t[2][0]
+                    chain_ok = peel(t, transparent=[]) == V and all(n in ("map", "into_iter") for n in names) and b.dominates(srt[0].bb, [c for c in b.calls() if c.result_term() == ret][0].bb)
     ctx.ob(rid, "gather|emit-in-name-order", ok and chain_ok, "the result must be the by-name map's values in key order, transformed only by order-preserving `map` (found %s)" % show(ret), site=b.raw["span"]["at"])
     # comparator
     cl = None
@@ -181,6 +202,23 @@ def rule_R2(ctx, f):
         ctx.ob(rid, "comparator|timestamp-fallback", tscmp, "equal label values must fall back to m1.timestamp.cmp(m2.timestamp)", site=cl.raw["span"]["at"])
         # values compared by != before cmp must be the same pair (no early Equal on other data)
         ctx.floor(rid, "LabelPair::value reads in the comparator", len(vals), 2)
+
+
+def _sorts_by_first(f, c):
+    """The sort call orders (name, family) pairs by the name alone: sort_by(|a, b| a.0.cmp(&b.0)) or sort_by_key(|p| p.0 ...)."""
+    a = peel(c.args[1], transparent=[])
+    cl = f.closure(a[2]) if (isinstance(a, tuple) and a and a[0] == "agg" and a[1] == "closure") else None
+    if cl is None:
+        return False
+    r = peel(cl.term_local(0), transparent=[])
+    own = ["Clone::clone", "String::as_str", "Deref::deref", "ToOwned::to_owned", "AsRef::as_ref", "String::clone"]
+
+    def first_of(t, p):
+        t = peel(t, transparent=own)
+        return t in (("field", ("param", p), "0"), ("field", ("deref", ("param", p)), "0"))
+    if c.matches(["slice::sort_by", "slice::sort_unstable_by"]):
+        return is_call(r, ["Ord::cmp"]) and first_of(r[2][0], 2) and first_of(r[2][1], 3)
+    return first_of(r, 2)
 
 
 def _value_cmp_find_form(f, cl, z):
@@ -284,7 +322,7 @@ def merge_sites(b):
     res = []
     for c in b.calls_to(["Vec::push", "Vec::extend", "Vec::append", "Extend::extend"]):
         r = peel(c.args[0])
-        if is_call(r, ["mut_metric"]) and [s_ for s_ in subterms(r[2][0]) if isinstance(s_, tuple) and s_ and s_[0] == "call" and is_call(s_, ["OccupiedEntry::get_mut", "OccupiedEntry::into_mut", "BTreeMap::get_mut"])]:
+        if is_call(r, ["mut_metric"]) and [s_ for s_ in subterms(r[2][0]) if isinstance(s_, tuple) and s_ and s_[0] == "call" and is_call(s_, ["OccupiedEntry::get_mut", "OccupiedEntry::into_mut", "BTreeMap::get_mut", "HashMap::get_mut"])]:
             res.append(c)
     return res
 
@@ -347,7 +385,8 @@ def rule_R4(ctx, f):
     si = b.switch_info(inner.target)
     body_entry = [t for v, t in si[1] if v == 1][0]
     # the lookup of the family's name in the by-name map: entry(name) or get_mut(name)
-    ents = [c for c in b.calls_to(["BTreeMap::entry", "BTreeMap::get_mut"]) if c.bb in b.reach(body_entry, avoid_blocks=[inner.bb])]
+    ents = [c for c in b.calls_to(["BTreeMap::entry", "BTreeMap::get_mut", "HashMap::entry", "HashMap::get_mut"]) if c.bb in b.reach(body_entry, avoid_blocks=[inner.bb])
+            and peel(c.args[0]) != ("field", ("deref", ("param", 1)), "collectors_by_id")]
     skip_edges = []
     for bi in b.reach(body_entry):
         be = b.bool_edges(bi)
@@ -366,7 +405,7 @@ def rule_R4(ctx, f):
     vi = b.calls_to("VacantEntry::insert")
     okv = len(vi) == 1 and peel(vi[0].args[1]) == fam
     if not vi:
-        bi_ = [c for c in b.calls_to("BTreeMap::insert") if c.bb in b.reach(body_entry, avoid_blocks=[inner.bb])]
+        bi_ = [c for c in b.calls_to(["BTreeMap::insert", "HashMap::insert"]) if c.bb in b.reach(body_entry, avoid_blocks=[inner.bb])]
         okv = len(bi_) == 1 and peel(bi_[0].args[2]) == fam and (lambda k: is_call(k, ["MetricFamily::name", "get_name"]) and peel(k[2][0]) == fam)(
             peel(bi_[0].args[1], transparent=["ToOwned::to_owned", "str::to_owned", "ToString::to_string", "String::from", "Into::into", "Deref::deref"]))
         vi = bi_
@@ -424,7 +463,8 @@ def rule_R5(ctx, f):
     if not cl:
         return
     ctx.saw(cl)
-    fam = ("param", 2)
+    # the closure receives the family itself, or a (name, family) pair when the by-name map's entries were sorted in a Vec
+    fam = ("field", ("param", 2), "1") if cl.local_ty(2).startswith("(") else ("param", 2)
     caps = a[3]
 
     def outer_terms(t):
